@@ -197,3 +197,77 @@ Theorem encode_injective cs ds :
 Proof.
   intros F G E. apply decode_encode in F, G. rewrite E in F. congruence.
 Qed.
+
+(* ---- valid_up_to: the longest prefix made of whole well-formed sequences ---- *)
+Lemma step_shorter bs c r : step bs = Some (c, r) -> exists pre, pre <> [] /\ bs = pre ++ r.
+Proof.
+  intros H. apply step_sound in H as [_ ->]. exists (encode1 c). split; [apply encode1_nonempty|reflexivity].
+Qed.
+
+Lemma vut_spec fuel : forall bs acc,
+  (List.length bs <= fuel)%nat ->
+  exists k, valid_up_to_f fuel bs acc = acc + N.of_nat k /\ (k <= List.length bs)%nat /\
+            valid (firstn k bs) = true /\
+            (k = List.length bs \/ step (skipn k bs) = None).
+Proof.
+  induction fuel as [|f IH]; intros bs acc L.
+  - destruct bs; [|cbn in L; lia]. exists 0%nat. cbn. repeat split; auto; lia.
+  - cbn [valid_up_to_f]. destruct (step bs) as [[c r]|] eqn:St.
+    + destruct (step_shorter _ _ _ St) as (pre & Np & ->).
+      assert (Lr : (List.length r <= f)%nat).
+      { rewrite app_length in L. destruct pre; [congruence|cbn in L; lia]. }
+      destruct (IH r (acc + (N.of_nat (List.length (pre ++ r)) - N.of_nat (List.length r))) Lr)
+        as (k & E & Lk & V & M).
+      exists (List.length pre + k)%nat. rewrite E, app_length. split; [lia|]. split; [lia|].
+      split.
+      * rewrite firstn_app, firstn_all2 by lia.
+        replace (List.length pre + k - List.length pre)%nat with k by lia.
+        apply step_sound in St as [Sc Eq]. apply app_inv_tail in Eq. subst pre.
+        apply valid_iff in V as (cs & F & Ek). apply valid_iff. exists (c :: cs). split.
+        -- cbn. now rewrite Sc, F.
+        -- change (encode (c :: cs)) with (encode1 c ++ encode cs). now rewrite Ek.
+      * destruct M as [M|M]; [left; lia|right].
+        rewrite skipn_app, skipn_all2 by lia. cbn [app].
+        replace (List.length pre + k - List.length pre)%nat with k by lia. exact M.
+    + exists 0%nat. cbn. repeat split; auto; try lia; try (destruct bs; [left; reflexivity|right; exact St]).
+Qed.
+
+Theorem valid_up_to_is_the_longest_valid_prefix bs :
+  exists k, valid_up_to bs = N.of_nat k /\ (k <= List.length bs)%nat /\
+            valid (firstn k bs) = true /\
+            (k = List.length bs \/ step (skipn k bs) = None).
+Proof.
+  destruct (vut_spec (List.length bs) bs 0 (le_n _)) as (k & E & H). exists k. split; [|exact H].
+  unfold valid_up_to. rewrite E. lia.
+Qed.
+
+Lemma no_stuck_tail ds : forall bs tail cs,
+  forallb scalar ds = true -> forallb scalar cs = true ->
+  bs = encode ds ++ tail -> bs = encode cs -> tail <> [] -> step tail = None -> False.
+Proof.
+  induction ds as [|d ds IH]; intros bs tail cs G F Split Eb Sk M.
+  - cbn in Split. subst tail. destruct cs as [|c cs]; [cbn in Eb; congruence|].
+    cbn in F. apply andb_true_iff in F as [Sc F]. rewrite Eb in M.
+    change (encode (c :: cs)) with (encode1 c ++ encode cs) in M. rewrite (step_encode1 c _ Sc) in M. discriminate.
+  - cbn in G. apply andb_true_iff in G as [Sd G].
+    change (encode (d :: ds)) with (encode1 d ++ encode ds) in Split. rewrite <- app_assoc in Split.
+    destruct cs as [|c cs].
+    + cbn in Eb. subst bs. destruct (encode1 d) eqn:Z; [now apply encode1_nonempty in Z|discriminate].
+    + cbn in F. apply andb_true_iff in F as [Sc F].
+      change (encode (c :: cs)) with (encode1 c ++ encode cs) in Eb.
+      assert (St1 : step bs = Some (d, encode ds ++ tail)) by (rewrite Split; now apply step_encode1).
+      assert (St2 : step bs = Some (c, encode cs)) by (rewrite Eb; now apply step_encode1).
+      rewrite St1 in St2. inversion St2; subst c. eapply (IH (encode ds ++ tail) tail cs); eauto.
+Qed.
+
+Theorem valid_iff_up_to_everything bs : valid bs = true <-> valid_up_to bs = N.of_nat (List.length bs).
+Proof.
+  destruct (valid_up_to_is_the_longest_valid_prefix bs) as (k & E & Lk & V & M). split.
+  - intros Vb. rewrite E. f_equal. destruct M as [M|M]; [exact M|].
+    destruct (Nat.eq_dec k (List.length bs)) as [Ek|Ne]; [exact Ek|exfalso].
+    apply valid_iff in Vb as (cs & F & Eb). apply valid_iff in V as (ds & G & Ed).
+    assert (Sk : skipn k bs <> []) by (intros Z; apply (f_equal (@List.length _)) in Z; rewrite skipn_length in Z; cbn in Z; lia).
+    assert (Split : bs = encode ds ++ skipn k bs) by (rewrite <- Ed; symmetry; apply firstn_skipn).
+    exact (no_stuck_tail ds bs (skipn k bs) cs G F Split Eb Sk M).
+  - intros Eq. rewrite E in Eq. apply Nat2N.inj in Eq. subst k. now rewrite firstn_all in V.
+Qed.
